@@ -283,15 +283,16 @@ func restoreFile(name string, backupFi fs.FileInfo, base, backup FS) (err error)
 	}()
 	f, err := backup.Open(name)
 	if err != nil {
-		// best effort, if backup was tempered with, we cannot restore the file.
-		return nil
+		// if backup was tempered with, we cannot restore the file
+		// and the rollback must not report a success.
+		return err
 	}
 	defer f.Close()
 
 	fi, err := f.Stat()
 	if err != nil {
-		// best effort, see above
-		return nil
+		// see above
+		return err
 	}
 
 	if !fi.Mode().IsRegular() {
@@ -299,8 +300,8 @@ func restoreFile(name string, backupFi fs.FileInfo, base, backup FS) (err error)
 		err = base.RemoveAll(name)
 		if err != nil {
 			// we failed to remove the directory
-			// supposedly we cannot restore the file, as the directory still exists
-			return nil
+			// we cannot restore the file, as the directory still exists
+			return err
 		}
 	}
 
@@ -328,20 +329,26 @@ func restoreSymlink(name string, backupFi fs.FileInfo, base, backup FS) (err err
 	}()
 
 	_, exists, err := lexists(backup, name)
-	if err != nil || !exists {
-		// best effort, if backup broken, we cannot restore
-		return nil
+	if err != nil {
+		// if the backup is broken, we cannot restore
+		// and the rollback must not report a success.
+		return err
+	}
+	if !exists {
+		return fmt.Errorf("backup of symlink is missing: %w", fs.ErrNotExist)
 	}
 
 	_, newFileExists, err := lexists(base, name)
-	if err == nil && newFileExists {
+	if err != nil {
+		return err
+	}
+	if newFileExists {
 		// remove dir/symlink/etc and create a new symlink there
 		err = base.RemoveAll(name)
 		if err != nil {
 			// in case we fail to remove the new file,
 			// we cannot restore the symlink
-			// best effort, fail silently
-			return nil
+			return err
 		}
 	}
 
